@@ -109,6 +109,10 @@ func (header *Header) Validate(ctx context.Context, opts ...ValidationOption) er
 					if err := v.Validate(ctx); err != nil {
 						return fmt.Errorf("%s: %w", k, err)
 					}
+					if v.Value.ExternalValue != "" {
+						// the example lives elsewhere: there is no value here to hold against the schema
+						continue
+					}
 					if err := validateExampleValue(ctx, v.Value.Value, schema.Value); err != nil {
 						return fmt.Errorf("%s: %w", k, err)
 					}
